@@ -219,3 +219,27 @@ def validate_trace_parallel(chk, module, cfg, lines, stage, jobs=8, chunk=400, e
             for r in rej:
                 out.append([r[0] + i] + r[1:])
     return out
+
+
+def repo_test_traces(chk, which, select=None, cap=4000, timeout=1800):
+    """run the repository's own test-suite under harness/record_plugin.py (loaded from outside the source tree) and return the recorded lines
+    {file name: [lines]} plus a summary; the tests' own verdicts are not evidence, only the recorded calls are"""
+    import re
+    import subprocess
+    out = os.path.join(chk.scratch, "repo-traces-%d" % len(os.listdir(chk.scratch)))
+    env = dict(os.environ, STIX2_VERIF_TRACE=out, STIX2_VERIF_TRACE_WHICH=",".join(which), STIX2_VERIF_TRACE_CAP=str(cap), PYTHONPATH=VERIF, PYTHONDONTWRITEBYTECODE="1")
+    cmd = ["/venv/bin/python", "-m", "pytest", "-q", "-p", "harness.record_plugin", "-p", "no:cacheprovider", "--timeout=900", "--continue-on-collection-errors"] + list(select or [])
+    t0 = time.time()
+    p = subprocess.run(cmd, cwd="/repo", env=env, stdout=subprocess.PIPE, stderr=subprocess.STDOUT, text=True, timeout=timeout)
+    if p.returncode not in (0, 1) or not os.path.exists(os.path.join(out, "summary.json")):
+        raise tlc.TlcFailure("recording run of the repository tests failed (exit %s):\n%s" % (p.returncode, p.stdout[-2000:]))
+    summary = json.load(open(os.path.join(out, "summary.json")))
+    m = re.search(r"(\d+) passed", p.stdout)
+    summary["tests_passed_under_recording"] = int(m.group(1)) if m else 0
+    summary["wall_s"] = round(time.time() - t0, 1)
+    lines = {}
+    for w in which:
+        path = os.path.join(out, w + ".ndjson")
+        lines[w] = [json.loads(l) for l in open(path)] if os.path.exists(path) else []
+    shutil.rmtree(out, ignore_errors=True)
+    return lines, summary
